@@ -11,7 +11,7 @@ from .. import runner, explore, coll
 RULE = ('H-COLL: every sequence (ordered, without repetition) of length <= L over a pool of P concrete messages - mutating, '
         'no-op, warning-only, failing with MosMergeError at list position 1 and at position 2, order-dependent, roDelete '
         '(everything after it fails with MosCompletedMergeError) - hence every subset and placement of failing messages, '
-        'x {strict, non-strict} x {from_strings, from_files, from_s3 (fake)}. Oracle (differential): the harness folds '
+        'x {strict, non-strict} x {from_strings, from_files, from_s3 (fake)} x roCreate message ID {lowest, in the middle of the others}. Oracle (differential): the harness folds '
         '`ro += fresh parse` over the messages in ascending message-ID order; strict: the same exception type propagates '
         'and str(mc) equals the fold stopped there; non-strict: no exception, exactly one MosMergeNonStrictWarning per '
         'failing message, every other mosromgr warning as in the fold, str(mc) equals the fold skipping exactly the '
@@ -29,78 +29,87 @@ def sequences(names, L):
 def worker(ns, items, res, opts):
     prop = opts['prop']
     pool = coll.pool_nasty() if opts.get('nasty') else coll.pool_messages()
-    ro_text = coll.base_ro()
     tmp = tempfile.mkdtemp(prefix='mosmc-c09-')
     store = coll.FakeS3()
     store.install(ns)
     try:
         for seq in items:
             texts = [pool[name](2000 + 10 * k) for k, name in enumerate(seq)]
-            for strict in (True, False):
-                problems = []
-
-                def unchanged(k, t, before, after, e):
-                    if before != after:
-                        problems.append((k, type(e).__name__))
-                ref = coll.fold(ns, ro_text, texts, strict, check_unchanged=unchanged)
-                res.extra['states'] += len(texts) + 1
-                if opts.get('c05'):
-                    res.transitions += len(texts)
-                    res.nontrivial += len(ref['failed'])
-                    res.by_outcome['failing-steps=%d' % len(ref['failed'])] += 1
-                    res.extra['raising_steps'] += len(ref['failed'])
-                    for k, en in problems:
-                        explore.add_simple_finding(res, prop, f'COLLECTION:{seq[k]}:mutated-before-raise:{en}',
-                                                   f'sequence {list(seq)} (strict={strict}): message #{k} {seq[k]} raised {en} but changed the running order',
-                                                   sequence=list(seq), ro=ro_text, messages=texts)
-                    continue
-                if opts.get('c12'):
-                    # C12: a non-strict collection merge always runs to the end; strict raises only MosMergeError
-                    got = run_collection(ns, 'strings', ro_text, texts, strict, tmp, store)
-                    res.transitions += len(texts)
-                    res.nontrivial += 1
-                    res.extra['collection_merges'] += 1
-                    res.by_outcome['collection:' + str(got['exc']).split(':')[0]] += 1
-                    if got['exc'] and 'BUILTIN' in str(got['exc']):
-                        explore.add_simple_finding(res, prop, f"COLLECTION:strict={strict}:{got['exc']}",
-                                                   f'sequence {list(seq)} strict={strict}: collection merge escaped with {got["exc"]}',
-                                                   sequence=list(seq), ro=ro_text, messages=texts)
-                    elif not strict and got['exc']:
-                        explore.add_simple_finding(res, prop, f"COLLECTION:non-strict-did-not-finish:{got['exc']}",
-                                                   f'sequence {list(seq)}: non-strict merge raised {got["exc"]}',
-                                                   sequence=list(seq), ro=ro_text, messages=texts)
-                    continue
-                for ctor in ('strings', 'files', 's3'):
-                    res.transitions += max(1, len(texts))
-                    res.extra['collections'] += 1
-                    if ref['failed']:
-                        res.nontrivial += 1
-                    got = run_collection(ns, ctor, ro_text, texts, strict, tmp, store)
-                    cls = f"strict={strict}:failed={len(ref['failed'])}of{len(texts)}"
-                    res.by_class[cls] += 1
-                    res.by_outcome[str(got['exc'])] += 1
-                    bad = None
-                    if got['exc'] != ref['exc']:
-                        bad = ('exception', f"merge raised {got['exc']}, the fold {ref['exc']}")
-                    elif got['text'] != ref['text']:
-                        bad = ('result-differs', 'str(mc) differs from the sequential fold')
-                    elif not strict and got['nonstrict'] != len(ref['failed']):
-                        bad = ('nonstrict-warning-count', f"{got['nonstrict']} MosMergeNonStrictWarning for {len(ref['failed'])} failing messages")
-                    elif strict and got['nonstrict']:
-                        bad = ('nonstrict-warning-in-strict-mode', f"{got['nonstrict']} MosMergeNonStrictWarning in strict mode")
-                    elif Counter(got['warns']) != Counter(ref['warns']):
-                        bad = ('other-warnings', f"warnings {got['warns']} vs fold {ref['warns']}")
-                    if bad:
-                        first_fail = ref['failed'][0] if ref['failed'] else None
-                        where = 'none' if first_fail is None else ('first' if first_fail == 0 else 'last' if first_fail == len(texts) - 1 else 'mid')
-                        explore.add_simple_finding(
-                            res, prop, f"{bad[0]}:strict={strict}:ctor={ctor}:nfail={min(len(ref['failed']), 2)}:firstfail={where}",
-                            f'sequence {list(seq)} strict={strict} via from_{ctor}: {bad[1]} (failing positions {ref["failed"]})',
-                            sequence=list(seq), ro=ro_text, messages=texts, got=got, reference=ref)
+            # the same sequence twice: roCreate with the lowest message ID, and (a message-ID counter may
+            # have restarted) roCreate with an ID in the middle of the others
+            variants = [coll.base_ro()]
+            if len(seq) >= 2 and not opts.get('c05') and not opts.get('c12'):
+                variants.append(coll.base_ro(msg_id=2000 + 10 * (len(seq) // 2) - 5))
+            for vi, ro_text in enumerate(variants):
+                for strict in (True, False):
+                    _one(ns, res, opts, prop, seq, texts, ro_text, strict, tmp, store, 'mid' if vi else 'first')
             if len(res.samples) < 2 and (len(seq) + opts.get('seed', 0)) % 3 == 0 and len(seq) >= 2:
-                res.samples.append({'sequence': list(seq), 'failing_positions_nonstrict': ref['failed']})
+                res.samples.append({'sequence': list(seq)})
     finally:
         shutil.rmtree(tmp, ignore_errors=True)
+
+
+def _one(ns, res, opts, prop, seq, texts, ro_text, strict, tmp, store, ro_pos):
+    problems = []
+
+    def unchanged(k, t, before, after, e):
+        if before != after:
+            problems.append((k, type(e).__name__))
+    ref = coll.fold(ns, ro_text, texts, strict, check_unchanged=unchanged)
+    res.extra['states'] += len(texts) + 1
+    if opts.get('c05'):
+        res.transitions += len(texts)
+        res.nontrivial += len(ref['failed'])
+        res.by_outcome['failing-steps=%d' % len(ref['failed'])] += 1
+        res.extra['raising_steps'] += len(ref['failed'])
+        for k, en in problems:
+            explore.add_simple_finding(res, prop, f'COLLECTION:{seq[k]}:mutated-before-raise:{en}',
+                                       f'sequence {list(seq)} (strict={strict}): message #{k} {seq[k]} raised {en} but changed the running order',
+                                       sequence=list(seq), ro=ro_text, messages=texts)
+        return
+    if opts.get('c12'):
+        # C12: a non-strict collection merge always runs to the end; strict raises only MosMergeError
+        got = run_collection(ns, 'strings', ro_text, texts, strict, tmp, store)
+        res.transitions += len(texts)
+        res.nontrivial += 1
+        res.extra['collection_merges'] += 1
+        res.by_outcome['collection:' + str(got['exc']).split(':')[0]] += 1
+        if got['exc'] and 'BUILTIN' in str(got['exc']):
+            explore.add_simple_finding(res, prop, f"COLLECTION:strict={strict}:{got['exc']}",
+                                       f'sequence {list(seq)} strict={strict}: collection merge escaped with {got["exc"]}',
+                                       sequence=list(seq), ro=ro_text, messages=texts)
+        elif not strict and got['exc']:
+            explore.add_simple_finding(res, prop, f"COLLECTION:non-strict-did-not-finish:{got['exc']}",
+                                       f'sequence {list(seq)}: non-strict merge raised {got["exc"]}',
+                                       sequence=list(seq), ro=ro_text, messages=texts)
+        return
+    for ctor in (('strings', 'files', 's3') if ro_pos == 'first' else ('strings', 'files')):
+        res.transitions += max(1, len(texts))
+        res.extra['collections'] += 1
+        if ref['failed']:
+            res.nontrivial += 1
+        got = run_collection(ns, ctor, ro_text, texts, strict, tmp, store)
+        cls = f"strict={strict}:failed={len(ref['failed'])}of{len(texts)}"
+        res.by_class[cls] += 1
+        res.by_outcome[str(got['exc'])] += 1
+        bad = None
+        if got['exc'] != ref['exc']:
+            bad = ('exception', f"merge raised {got['exc']}, the fold {ref['exc']}")
+        elif got['text'] != ref['text']:
+            bad = ('result-differs', 'str(mc) differs from the sequential fold')
+        elif not strict and got['nonstrict'] != len(ref['failed']):
+            bad = ('nonstrict-warning-count', f"{got['nonstrict']} MosMergeNonStrictWarning for {len(ref['failed'])} failing messages")
+        elif strict and got['nonstrict']:
+            bad = ('nonstrict-warning-in-strict-mode', f"{got['nonstrict']} MosMergeNonStrictWarning in strict mode")
+        elif Counter(got['warns']) != Counter(ref['warns']):
+            bad = ('other-warnings', f"warnings {got['warns']} vs fold {ref['warns']}")
+        if bad:
+            first_fail = ref['failed'][0] if ref['failed'] else None
+            where = 'none' if first_fail is None else ('first' if first_fail == 0 else 'last' if first_fail == len(texts) - 1 else 'mid')
+            explore.add_simple_finding(
+                res, prop, f"{bad[0]}:strict={strict}:ctor={ctor}:nfail={min(len(ref['failed']), 2)}:firstfail={where}:roCreate={ro_pos}",
+                f'sequence {list(seq)} strict={strict} via from_{ctor} (roCreate message ID {ro_pos}): {bad[1]} (failing positions {ref["failed"]})',
+                sequence=list(seq), ro=ro_text, messages=texts, got=got, reference=ref)
 
 
 def run_collection(ns, ctor, ro_text, texts, strict, tmp, store, order=None, allow_incomplete=True):
